@@ -86,6 +86,7 @@ def models(wd, tier, seed):
 FAM = dict(driver="ccall", specdirs=["ccall", "lib"], monitor="CCallPTrace", property_of=PROPERTY_OF, models=models,
            n_random={"quick": 6000, "thorough": 400000},
            x_specs=["ccall/CCall.tla"], p_monitor="ccall/CCallP.tla",
+           advisory=lambda wd, binp, seed, tier: x_conformance(wd, binp, seed, SCEN[tier], nrand=100 if tier == "quick" else 1500),
            assumptions=["CCallP encodes the statement as read in its header (I1-I6): overlapping error/cancel clauses accept either result; "
                         "the 'returns' clauses are read as obligations to return at library quiescence; a panic is not a return",
                         "harness-owned functions never panic and return only their scripted outcome"])
@@ -93,3 +94,58 @@ FAM = dict(driver="ccall", specdirs=["ccall", "lib"], monitor="CCallPTrace", pro
 
 def run(prop, tier, seed):
     return vlib.standard_check(prop, tier, seed, FAM)
+
+
+# --------------------------------------------------------------------------- advisory X-level conformance
+
+def x_conformance(wd, binp, seed, names, nrand=100):
+    """Replays executions of every scenario of the named sets (seeded random schedules, controller steps
+    logged) through the X spec itself (CCallXTrace.tla): one harness run and one TLC run per set, the
+    scenario of a run is chosen by the logged index (Choose(k)). Returns a summary dict; never a verdict."""
+    import subprocess, time
+    total = dict(traces=0, events=0, steps=0, drift=0, wall_s=0.0, samples=[])
+    t0 = time.time()
+    for name in names:
+        scens = json.load(open(scen_path(name)))["scens"]
+        scheds = [{"name": "%s/%s/x%d" % (name, s["name"], i), "scenario": dict(fns=s["fns"], cancel=s["cancel"], xk=k + 1), "labels": []}
+                  for k, s in enumerate(scens) for i in range(nrand)]
+        sf = os.path.join(wd, "x-%s-scheds.json" % name)
+        json.dump(scheds, open(sf, "w"))
+        tf = os.path.join(wd, "x-%s.ndjson" % name)
+        stf = os.path.join(wd, "x-%s.stats.json" % name)
+        p = subprocess.run([binp, "-test.run", "^TestRun$", "-driver", "ccall", "-out", tf, "-stats", stf, "-sched", sf, "-seed", str(seed), "-logsteps"],
+                           cwd=wd, capture_output=True, text=True)
+        if p.returncode != 0:
+            total["samples"].append("%s: harness failed" % name)
+            continue
+        v = x_validate(wd, name, scens, tf)
+        if v is None:
+            continue
+        if isinstance(v, str):
+            total["samples"].append("%s: X-trace validation did not finish: %s" % (name, v))
+            continue
+        total["traces"] += len(scheds)
+        total["events"] += v["total"]
+        total["steps"] += v["steps"]
+        total["drift"] += len(v["drift"])
+        total["samples"] += ["%s: %s" % (name, json.dumps(x)) for x in v["drift"][:3]]
+    total["wall_s"] = round(time.time() - t0, 1)
+    return total
+
+
+def x_validate(wd, name, scens, tf):
+    """One TLC run of CCallXTrace over the trace file tf; returns the verdict dict or an error string."""
+    d = vlib.spec_scratch(wd, "x-" + name, ["ccall", "lib"])
+    tl = [dict(fns=[dict(isnil=bool(f["isnil"]), out=f.get("out", "")) for f in s["fns"]], cancel=bool(s["cancel"])) for s in scens]
+    consts = ["Scens <- ScS", "EagerWake = FALSE", "FixF10 = %s" % B(FIX_F10), "FixF11 = %s" % B(FIX_F11)]
+    vlib.write_mc(d, "MCX", "CCallXTrace", ["ScS == " + vlib.json2tla(tl)],
+                  ["INIT TInit", "NEXT TNext", "CHECK_DEADLOCK FALSE", "CONSTANTS"] + [" " + c for c in consts])
+    vf = os.path.join(d, "verdict.json")
+    r = vlib.run_tlc(d, "MCX", "MCX.cfg", workers=1, timeout=900,
+                     env={"TRACE_FILE": tf, "VERDICT_FILE": vf,
+                          "JAVA_TOOL_OPTIONS": "-DTLA-Library=%s -Xmx3g -Xss256m -Dtlc2.tool.impl.Tool.cdot=true" % vlib.TLA_LIB})
+    if not os.path.exists(vf):
+        return r["error"] or "no verdict (%s)" % r["out"][-300:]
+    v = json.load(open(vf))
+    shutil.rmtree(d, ignore_errors=True)
+    return v
